@@ -1,6 +1,8 @@
 """C15 -- cache pruning is exact, bounded and least-recently-used; the record count is the number of
 distinct entries (also at quiescence after concurrent use)."""
+import os
 import re
+import subprocess
 
 from . import cachegen as cg
 from . import core
@@ -195,3 +197,133 @@ def extra(ctx):
             fails.append(core.Failure("concurrent-invariant", "quiescent state after concurrent use: %s: %s" % (f[0], f[1]), c, o))
     return fails, {"evaluations": len(lines), "distinct_nontrivial": checked, "concurrent_runs": len(lines),
                    "quiescent_dumps_checked": checked, "records_in_quiescent_dumps": records}
+
+
+# --------------------------------------------------------------------------------------------------
+# "prune ... reports the true numbers of records expired, evicted and remaining": the server reports them
+# through its metrics (main.rs prune_cache_and_update_metrics is one of the property's anchors).  A real
+# release `resolved` in forwarding mode in front of a fake UDP upstream; a fixed history whose expected
+# numbers follow from the cache model's theorems (prune_reports_truth) -- here computed by hand:
+#   cache size 2; q1,q2,q3 (TTL 300, three names)  -> after q3: 3 records, evict the LRU name: pruned 1, size 2
+#   q4 (TTL 1)                                     -> 3 records, evict LRU: pruned 2, size 2
+#   wait 1.3 s; q5 (TTL 300)                       -> insert (3), prune: expired 1 (q4's), size 2, nothing evicted
+# expected: cache_expired_total 1, cache_pruned_total 2, cache_size 2.
+# --------------------------------------------------------------------------------------------------
+
+def _metrics_probe(ctx):
+    import socket
+    import threading
+    import time
+    import urllib.request
+    from . import core, p_c09, tok
+    ok, out = p_c09.build_release_binaries()
+    if not ok:
+        return [core.Failure("metrics-probe-build-failed", "release build of resolved failed: " + core.trunc(out[-600:], 600), found_input=False)], {}
+    ttls = {b"n4": 1}
+    up = socket.socket(socket.AF_INET, socket.SOCK_DGRAM)
+    up.bind(("127.0.0.1", 0))
+    up.settimeout(0.2)
+    up_port = up.getsockname()[1]
+    stop = []
+
+    def serve():
+        while not stop:
+            try:
+                data, peer = up.recvfrom(2048)
+            except OSError:
+                continue
+            if len(data) < 17:
+                continue
+            # question name's first label decides the TTL; answer: <qname> A 10.0.0.1
+            first = data[13:13 + data[12]]
+            qend = 12
+            while data[qend] != 0:
+                qend += 1 + data[qend]
+            qend += 5
+            ttl = ttls.get(first, 300)
+            reply = data[:2] + b"\x81\x80" + b"\x00\x01\x00\x01\x00\x00\x00\x00" + data[12:qend] \
+                + b"\xc0\x0c\x00\x01\x00\x01" + ttl.to_bytes(4, "big") + b"\x00\x04\x0a\x00\x00\x01"
+            up.sendto(reply, peer)
+    th = threading.Thread(target=serve, daemon=True)
+    th.start()
+    port = p_c09.free_port_pair()
+    mport = p_c09.free_port_pair()
+    workdir = os.path.join(ctx["run_dir"], "c15-metrics")
+    os.makedirs(workdir, exist_ok=True)
+    log = open(os.path.join(workdir, "server.log"), "w")
+    env = {k: v for k, v in os.environ.items() if not k.startswith("RESOLVED_") and k != "RUST_LOG"}
+    env["RUST_LOG"] = "warn"
+    proc = subprocess.Popen([p_c09.server_binary_path(), "-i", "127.0.0.1:%d" % port, "--metrics-address", "127.0.0.1:%d" % mport,
+                             "-s", "2", "-f", "127.0.0.1:%d" % up_port], stdout=log, stderr=subprocess.STDOUT, env=env)
+    fails = []
+    info = {}
+    try:
+        def ask(label):
+            q = p_c09.simple_query("%s.metrics.test." % label, tok.A, ident=0x5151, rd=1)
+            for _ in range(40):
+                s = socket.socket(socket.AF_INET, socket.SOCK_DGRAM)
+                try:
+                    s.settimeout(0.5)
+                    s.sendto(q, ("127.0.0.1", port))
+                    r = s.recv(2048)
+                    if r[:2] == q[:2]:
+                        return r
+                except OSError:
+                    pass
+                finally:
+                    s.close()
+                if proc.poll() is not None:
+                    return None
+                time.sleep(0.05)
+            return None
+        for label in ("n1", "n2", "n3", "n4"):
+            if ask(label) is None:
+                return [core.Failure("metrics-probe-broken", "resolved (forwarding mode) did not answer %s" % label, found_input=False)], info
+            time.sleep(0.02)
+        time.sleep(1.3)
+        if ask("n5") is None:
+            return [core.Failure("metrics-probe-broken", "resolved (forwarding mode) did not answer n5", found_input=False)], info
+        text = urllib.request.urlopen("http://127.0.0.1:%d/metrics" % mport, timeout=5).read().decode()
+        vals = {}
+        for line in text.splitlines():
+            if line.startswith("#") or " " not in line:
+                continue
+            k, v = line.rsplit(" ", 1)
+            if k in ("cache_expired_total", "cache_pruned_total", "cache_size", "cache_overflow_count"):
+                vals[k] = float(v)
+        info = {"metrics_probe": vals}
+        want = {"cache_expired_total": 1.0, "cache_pruned_total": 2.0, "cache_size": 2.0}
+        for k, v in want.items():
+            if vals.get(k) != v:
+                fails.append(core.Failure("metrics-misreport-prune",
+                                          "after the history q1 q2 q3 q4(ttl 1) wait q5 with cache size 2 the server reports %s (expected "
+                                          "expired 1, pruned 2, size 2)" % vals,
+                                          case="C15-metrics-probe size=2 history=n1,n2,n3,n4(ttl1),sleep1.3,n5", impl=str(vals)))
+                break
+        info["evaluations"] = 5
+        info["distinct_nontrivial"] = 5
+    finally:
+        stop.append(1)
+        try:
+            proc.kill()
+            proc.wait(timeout=5)
+            log.close()
+            up.close()
+        except Exception:
+            pass
+    return fails, info
+
+
+_prev_extra = globals().get("extra")
+
+
+def extra(ctx):
+    fails, info = ([], {})
+    if _prev_extra is not None:
+        fails, info = _prev_extra(ctx)
+    f2, i2 = _metrics_probe(ctx)
+    info = dict(info)
+    info["metrics"] = i2.get("metrics_probe")
+    info["evaluations"] = info.get("evaluations", 0) + i2.get("evaluations", 0)
+    info["distinct_nontrivial"] = info.get("distinct_nontrivial", 0) + i2.get("distinct_nontrivial", 0)
+    return fails + f2, info
